@@ -24,6 +24,9 @@ type c07Registry struct {
 	base  map[string]int    // registered profile name -> base profile (1 / 2)
 }
 
+// c07OIDName names a P2-derived profile by an OID (legal for eat_profile).
+const c07OIDName = "1.3.6.1.4.1.4128.77.6"
+
 func c07Setup(cfg int) (*c07Registry, error) {
 	r := &c07Registry{types: map[string]string{model.P1Name: "*psatoken.P1Claims", model.P2Name: "*psatoken.P2Claims"},
 		base: map[string]int{model.P1Name: 1, model.P2Name: 2}}
@@ -67,6 +70,10 @@ func c07Setup(cfg int) (*c07Registry, error) {
 		if err = ext(extprof.ExtP2Name); err == nil {
 			for i := 0; i < 8 && err == nil; i++ {
 				err = reg(fmt.Sprintf("http://example.com/numbered/%d", i), 2)
+			}
+			if err == nil {
+				// eat.Profile lets a profile be named by an OID as well
+				err = reg(c07OIDName, 2)
 			}
 		}
 	default:
@@ -130,7 +137,7 @@ func runC07(c *mon.Ctx) {
 	}
 	c.SetAdd("registry_configurations", reg.name)
 	c.Count("config:" + reg.name)
-	c.Rule("one worker process per registry configuration (base profiles only; + P2-based extension; + P2- and P1-based extensions; + 8 further P2-based profiles sharing the JSON profile member; + 4 P2-based and 4 P1-based further profiles). Tokens = valid and rule-breaking claims-sets of every registered profile, serialised to CBOR and to JSON by the harness, with the profile claim: a registered name / absent / an unregistered name / the name of a profile not registered in this configuration / another base profile's name / a non-text value / present under both profiles' keys / null; plus sets that are valid only under the *other* base profile's rules (P2 with EAN-13 reference, P1 with short or no boot seed). Oracle (determinate cases): the dynamic type and canonical profile of the result of DecodeClaimsFromCBOR/JSON must be those registered under the declared name, P1 when nothing is declared, an error for an unregistered value; the validating decoders accept iff the set is valid under the declared profile's rules and an accepted token's GetProfile() returns the declared name (P1's when none); CBOR and JSON must agree; NewClaims(p) returns the registered type, reports p, and fails for unregistered names. In CBOR the profile claim is key 265, so a token carrying BOTH 265 and P1's -75000 is judged by 265 (P2 name -> P2 implementation, unregistered -> error); in JSON a quarter of the profile strings are spelled with escape sequences (same value). A registered P1-derived profile named under key 265 of a P1-keyed token selects that implementation (valid iff the set is and -75000 is absent); a JSON null profile member on a profile-1 document declares nothing (profile 1 assumed). NO-VERDICT (counted; only 'never accepted under another profile' is asserted): null profile in CBOR / on a P2 document, P1 name under key 265, JSON documents carrying both members with one unregistered, both members present with one unknown, a P1-derived extension in CBOR (not selectable by design: its name lives under -75000). distinct_nontrivial = distinct (configuration, format, base, declaration class, validity class) signatures")
+	c.Rule("one worker process per registry configuration (base profiles only; + P2-based extension; + P2- and P1-based extensions; + 8 further P2-based profiles sharing the JSON profile member and one P2-based profile named by an OID (JSON determinate, CBOR NO-VERDICT); + 4 P2-based and 4 P1-based further profiles). Tokens = valid and rule-breaking claims-sets of every registered profile, serialised to CBOR and to JSON by the harness, with the profile claim: a registered name / absent / an unregistered name / the name of a profile not registered in this configuration / another base profile's name / a non-text value / present under both profiles' keys / null; plus sets that are valid only under the *other* base profile's rules (P2 with EAN-13 reference, P1 with short or no boot seed). Oracle (determinate cases): the dynamic type and canonical profile of the result of DecodeClaimsFromCBOR/JSON must be those registered under the declared name, P1 when nothing is declared, an error for an unregistered value; the validating decoders accept iff the set is valid under the declared profile's rules and an accepted token's GetProfile() returns the declared name (P1's when none); CBOR and JSON must agree; NewClaims(p) returns the registered type, reports p, and fails for unregistered names. In CBOR the profile claim is key 265, so a token carrying BOTH 265 and P1's -75000 is judged by 265 (P2 name -> P2 implementation, unregistered -> error); in JSON a quarter of the profile strings are spelled with escape sequences (same value). A registered P1-derived profile named under key 265 of a P1-keyed token selects that implementation (valid iff the set is and -75000 is absent); a JSON null profile member on a profile-1 document declares nothing (profile 1 assumed). NO-VERDICT (counted; only 'never accepted under another profile' is asserted): null profile in CBOR / on a P2 document, P1 name under key 265, JSON documents carrying both members with one unregistered, both members present with one unknown, a P1-derived extension in CBOR (not selectable by design: its name lives under -75000). distinct_nontrivial = distinct (configuration, format, base, declaration class, validity class) signatures")
 	g := model.NewGen(c.Seed*4421 + int64(c.Shard))
 
 	// ---- NewClaims
@@ -191,7 +198,7 @@ func runC07(c *mon.Ctx) {
 		if base == 1 && g.R.Intn(4) == 0 {
 			return []string{"PSA_IOT_PROFILE_1 ", " PSA_IOT_PROFILE_1", "PSA_IOT_PROFILE_01", "PSA_IOT_PROFILE_1\x00", "PSA-IOT-PROFILE-1", "Psa_Iot_Profile_1"}[g.R.Intn(6)]
 		}
-		cands := []string{"http://example.com/unregistered/1", "http://arm.com/psa/3.0.0", "PSA_IOT_PROFILE_9", "psa_iot_profile_1", extprof.ExtP2Name, extprof.ExtP1Name, "http://example.com/numbered/9", "PSA_IOT_PROFILE_1_N7", "x"}
+		cands := []string{"http://example.com/unregistered/1", "http://arm.com/psa/3.0.0", "PSA_IOT_PROFILE_9", "psa_iot_profile_1", extprof.ExtP2Name, extprof.ExtP1Name, "http://example.com/numbered/9", "PSA_IOT_PROFILE_1_N7", "x", "http://example.com/" + strings.Repeat("ü", 40), strings.Repeat("é", 33)}
 		for {
 			s := cands[g.R.Intn(len(cands))]
 			if _, ok := reg.types[s]; !ok {
@@ -383,6 +390,11 @@ func runC07(c *mon.Ctx) {
 				input = refcbor.Encode(w)
 				if e.verdict == "type" && reg.base[e.name] == 1 && e.name != model.P1Name && a.Profile != nil {
 					e = c07Exp{"open", "", "P1-derived extension is not selectable in CBOR by design", exp.declared}
+				}
+				if a.Profile != nil && *a.Profile == c07OIDName {
+					// the CBOR form of an OID-valued profile claim is not a text string; the
+					// text form used here is outside what the library emits
+					e = c07Exp{"open", "", "OID-named profile in CBOR", exp.declared}
 				}
 				if base == 1 && (decl == "p2-name-under-p1-key" || decl == "unregistered") {
 					// the CBOR selector only reads key 265, so a name under -75000 cannot be looked up
